@@ -883,7 +883,10 @@ def mode_typestate(ctx):
                 v = dotted(a.value)
                 ctx.check(m.name in allowed and v in allowed[m.name], a, "%s sets the mode to %s (allowed transition)" % (m.name, v),
                           "%s sets the stream mode to %s: not one of the mode transitions of the read/write state machine" % (m.name, v))
-    ctx.floor(n, 6, "stores to BinaryZlibFile._mode")
+    have = {(m.name, dotted(a.value)) for m in cls.body if isinstance(m, ast.FunctionDef) for a in nodes_of_type(m, ast.Assign) if "self._mode" in stores_to(a)}
+    for need_ in (("__init__", "_MODE_READ"), ("__init__", "_MODE_WRITE"), ("_fill_buffer", "_MODE_READ_EOF"), ("_rewind", "_MODE_READ"), ("close", "_MODE_CLOSED")):
+        ctx.check(need_ in have, cls, "transition present: %s sets %s" % need_, "the mode transition `%s sets %s` is gone: the state machine of the stream no longer reaches/leaves that mode" % need_,
+                  key="%s::%s::transition %s->%s" % (CP, Z, need_[0], need_[1]))
     consts = _module_bytes(ctx.repo.mod(CP))
     vals = [consts.get(k) for k in ("_MODE_CLOSED", "_MODE_READ", "_MODE_READ_EOF", "_MODE_WRITE")]
     ctx.check(None not in vals and len(set(vals)) == 4, cls, "the four mode constants are distinct (%s)" % vals, "mode constants are not pairwise distinct: %s" % vals)
